@@ -69,11 +69,17 @@ func (e *Engine) stub4(fn *ssa.Function, args []any) (any, bool) {
 		// constructed values live in a reserved part of the byte-string space: they start with the tag
 		// byte 0x01, which raw harness inputs (vf.Bytes/vf.String) are constrained not to start with.
 		// proto3: a message whose fields are all default marshals to zero bytes
-		nd := nonDefault((*p.cells)[p.idx])
-		e.S.Send(fmt.Sprintf("(assert (ite %s (str.prefixof \"\\u{1}M\" %s) (= %s \"\")))", nd, sym, sym))
-		// wire size: every non-empty bytes/string field costs its length plus at least a tag and a length byte
-		if lb := marshalLowerBound((*p.cells)[p.idx]); lb != "" {
-			e.S.Send(fmt.Sprintf("(assert (>= (str.len %s) %s))", sym, lb))
+		if enc, ok := e.marshalExactBytes((*p.cells)[p.idx].(StructV), structOf(iv.T)); ok {
+			// flat messages of short strings: the bytes are exactly the protobuf encoding (tag, length byte, content per
+			// non-empty field, in field order), so truncated / overwritten / concatenated encodings behave as they really do
+			e.S.Send(fmt.Sprintf("(assert (= %s %s))", sym, enc))
+		} else {
+			nd := nonDefault((*p.cells)[p.idx])
+			e.S.Send(fmt.Sprintf("(assert (ite %s (str.prefixof \"\\u{1}M\" %s) (= %s \"\")))", nd, sym, sym))
+			// wire size: every non-empty bytes/string field costs its length plus at least a tag and a length byte
+			if lb := marshalLowerBound((*p.cells)[p.idx]); lb != "" {
+				e.S.Send(fmt.Sprintf("(assert (>= (str.len %s) %s))", sym, lb))
+			}
 		}
 		e.S.Send(fmt.Sprintf("(assert (<= (str.len %s) 400))", sym)) // stated bound of the spike: small messages
 		msgOf[sym] = &msgProv{T: iv.T, Snap: deepCopy((*p.cells)[p.idx], map[*[]any]*[]any{})}
@@ -354,6 +360,108 @@ func nonDefault(v any) string {
 		return "false"
 	}
 	return "(or false " + strings.Join(parts, " ") + ")"
+}
+
+// marshalExactBytes: the exact protobuf encoding of a message whose set fields are all strings/bytes provably
+// shorter than 128 bytes (and whose other fields are unset); ok=false when the message is not of that simple shape.
+func (e *Engine) marshalExactBytes(sv StructV, st *types.Struct) (string, bool) {
+	type fld struct {
+		num  int
+		term string // content term
+		lit  bool
+	}
+	var fs []fld
+	for i := 0; i < st.NumFields(); i++ {
+		tag := reflectTag(st.Tag(i), "protobuf")
+		if tag == "" {
+			continue // state, sizeCache, unknownFields
+		}
+		parts := strings.Split(tag, ",")
+		if len(parts) < 2 || parts[0] != "bytes" {
+			// non-length-delimited kinds must be unset
+			switch x := sv[i].(type) {
+			case int64:
+				if x != 0 {
+					return "", false
+				}
+			case bool:
+				if x {
+					return "", false
+				}
+			case nil:
+			default:
+				return "", false
+			}
+			continue
+		}
+		num := 0
+		fmt.Sscanf(parts[1], "%d", &num)
+		switch x := sv[i].(type) {
+		case string:
+			if len(x) >= 128 {
+				return "", false
+			}
+			if x != "" {
+				fs = append(fs, fld{num, smtStr(x), true})
+			}
+		case SymStr:
+			fs = append(fs, fld{num, x.E, false})
+		case BytesV:
+			if x.Nil && x.Obj == nil {
+				continue
+			}
+			fs = append(fs, fld{num, bytesE(x), false})
+		case nil:
+		case SliceV:
+			if x.len > 0 {
+				return "", false
+			}
+		case *MapV:
+			if x != nil && len(x.keys) > 0 {
+				return "", false
+			}
+		default:
+			return "", false
+		}
+	}
+	sort.Slice(fs, func(i, j int) bool { return fs[i].num < fs[j].num })
+	out := []string{"\"\""}
+	for _, f := range fs {
+		if !f.lit && e.S.CheckWith("(>= (str.len "+f.term+") 128)") != "unsat" {
+			return "", false // a longer field needs a multi-byte length prefix: not encoded
+		}
+		key := uint32(f.num)<<3 | 2
+		var tag string
+		if key < 128 {
+			tag = fmt.Sprintf("\"\\u{%x}\"", key)
+		} else {
+			tag = fmt.Sprintf("\"\\u{%x}\\u{%x}\"", key&0x7f|0x80, key>>7)
+		}
+		enc := fmt.Sprintf("(str.++ %s (str.from_code (str.len %s)) %s)", tag, f.term, f.term)
+		if f.lit {
+			out = append(out, enc)
+		} else {
+			out = append(out, fmt.Sprintf("(ite (> (str.len %s) 0) %s \"\")", f.term, enc))
+		}
+	}
+	if len(out) == 1 {
+		return "\"\"", true
+	}
+	return "(str.++ " + strings.Join(out, " ") + ")", true
+}
+
+func reflectTag(tag, key string) string {
+	// minimal struct-tag lookup: key:"value"
+	i := strings.Index(tag, key+":\"")
+	if i < 0 {
+		return ""
+	}
+	rest := tag[i+len(key)+2:]
+	j := strings.IndexByte(rest, '"')
+	if j < 0 {
+		return ""
+	}
+	return rest[:j]
 }
 
 func marshalLowerBound(v any) string {
